@@ -44,9 +44,11 @@ def gen_cases(ck, mode, maxlen=0, wide=False, inv=True):
 
 
 class Cfg:
-    def __init__(self, salt, ps4=8, ps6=8, pins=None, nets=None, on4=True, on6=True, undo=False):
+    def __init__(self, salt, ps4=8, ps6=8, pins=None, nets=None, on4=True, on6=True, undo=False, raw_pins=None, raw_nets=None):
         self.salt, self.ps4, self.ps6, self.pins, self.nets = salt, ps4, ps6, pins, nets
         self.on4, self.on6, self.undo = on4, on6, undo
+        # what the real code is given when the lists also name IPv6 networks (TLC is told the IPv4 entries: pins / nets)
+        self.raw_pins, self.raw_nets = raw_pins, raw_nets
 
     def event(self, clauses=TEXT_CLAUSES):
         pins, nets = D.expected_pins_v4(self.pins, self.nets)
@@ -57,14 +59,15 @@ class Cfg:
         return {k: getattr(self, k) for k in ("salt", "ps4", "ps6", "pins", "nets", "on4", "on6", "undo")}
 
     def make(self):
-        a4 = D.make_v4(self.salt, self.ps4, self.pins, self.nets) if self.on4 else None
+        a4 = D.make_v4(self.salt, self.ps4, self.raw_pins if self.raw_pins is not None else self.pins,
+                       self.raw_nets if self.raw_nets is not None else self.nets) if self.on4 else None
         a6 = D.make_v6(self.salt, self.ps6) if self.on6 else None
         return a4, a6
 
     def make_file_anonymizer(self):
         return AF.FileAnonymizer(anon_pwd=False, anon_ip=not self.undo, salt=self.salt, undo_ip_anon=self.undo,
-                                 preserve_prefixes=None if self.pins is None else list(self.pins),
-                                 preserve_networks=None if self.nets is None else list(self.nets),
+                                 preserve_prefixes=list(self.raw_pins) if self.raw_pins is not None else None if self.pins is None else list(self.pins),
+                                 preserve_networks=list(self.raw_nets) if self.raw_nets is not None else None if self.nets is None else list(self.nets),
                                  preserve_suffix_v4=self.ps4, preserve_suffix_v6=self.ps6)
 
 
@@ -96,6 +99,26 @@ def api_events(cfg):
             except Exception as e:
                 ev.append({"ev": "exc", "what": "api %r" % (e,)})
     return ev
+
+
+def config_lines(cfg):
+    """Lines that depend on the configuration's own mapping: originals whose images are mask-shaped (with that mask
+    on the same and on an earlier line), the unspecified IPv6 address next to ::1 in several spellings, one address
+    with and without a prefix length."""
+    out = ["ipv6 route ::/0 ::1", "ipv6 host 0:0:0:0:0:0:0:0 0::", "ip address 11.11.12.13/16", "host 11.11.12.13", "ip address 99.1.2.3/8 99.1.2.3/30",
+           "ipv6 address 2001:db8:5::9/32", "ipv6 host 2001:db8:5::9"]
+    try:
+        a4, _ = cfg.make()
+        if a4 is not None:
+            for m in (0xFFFF0000, 0x00000FFF, 0xFFFFFF00):
+                x = a4.deanonymize(m)
+                if a4.should_anonymize(x):
+                    out.append("mask %s here" % D.ipaddress.IPv4Address(m))
+                    out.append("ip address %s %s" % (D.ipaddress.IPv4Address(x), D.ipaddress.IPv4Address(m)))
+                    out.append("neighbor %s" % D.ipaddress.IPv4Address(x ^ 0x100))
+    except Exception:
+        pass
+    return out
 
 
 def token_api_events(cfg, files):
@@ -293,6 +316,18 @@ def run_c06(tier):
             tx.append(("interleaved", "EXC"))
         traces.append(ev)
         meta.append({"cfg": icfg.describe(), "via": "stage, both directions on one pair of objects", "lines": tx, "head": head})
+    # what an EARLIER anonymizer with other options did in this process is no business of a later one: first instances
+    # that preserve the private blocks / a user block meet the addresses, then instances without those blocks
+    hist_lines = ["host 10.1.2.3 10.200.0.9", "peer 172.20.1.1 192.168.7.7", "host 11.11.11.17 11.11.11.200", "route 10.1.2.3 255.255.255.0 172.20.1.1", "v6 2001:db8::7 fe80::1"]
+    for via in ("stage", "io"):
+        line_traces(Cfg("history", nets=list(D.PRIVATE_NETS) + ["11.11.11.16/28"]), hist_lines, via=via)       # (judged elsewhere: C05)
+        for hcfg in (Cfg("history"), Cfg("history", ps4=0, ps6=0, pins=[])):
+            a4, a6 = hcfg.make()
+            ev = [hcfg.event(TEXT_CLAUSES)] + api_events(hcfg) + token_api_events(hcfg, {"h": "\n".join(hist_lines)})
+            head = len(ev)
+            t, m = line_traces(hcfg, hist_lines, via=via)
+            traces.append(ev + t[0][len(t[0]) - len(hist_lines):])
+            meta.append({"cfg": hcfg.describe(), "via": via + ", after instances with other options", "lines": m[0]["lines"], "head": head})
     judge(ck, pid, traces, meta, "text")
     # the repository's own tests re-run under the recorder: every anonymize_ip_addr call they make
     import c_suite
@@ -353,7 +388,11 @@ def text_part_c05(ck, tier):
                # of a shorter pinned prefix
                Cfg("n6", ps4=0, nets=["224.0.0.0/4", "64.0.0.0/3", "8.0.0.0/7"]),
                Cfg("n7", ps4=0, nets=["10.0.0.0/24", "172.16.0.0/16", "192.168.0.0/24", "100.64.0.0/29"]),
-               Cfg("n8", ps4=0, pins=["100.64.0.0/10", "0.0.0.0/1"], nets=["100.64.0.0/29", "0.0.0.0/30"])]
+               Cfg("n8", ps4=0, pins=["100.64.0.0/10", "0.0.0.0/1"], nets=["100.64.0.0/29", "0.0.0.0/30"]),
+               # the lists may also name IPv6 networks; the IPv4 blocks after them are preserved and pinned all the same
+               Cfg("n9", ps4=0, nets=["11.11.0.0/16", "150.20.0.0/24"], raw_nets=["2001:db8::/32", "11.11.0.0/16", "fe80::/10", "150.20.0.0/24"]),
+               Cfg("n10", ps4=4, pins=["11.0.0.0/8", "150.0.0.0/8"], raw_pins=["fc00::/7", "11.0.0.0/8", "150.0.0.0/8"], nets=["11.11.0.0/16"],
+                   raw_nets=["2001:db8::/32", "11.11.0.0/16"])]
     for cfg in netcfgs:
         _, nets = D.expected_pins_v4(cfg.pins, cfg.nets)
         addrs = []
@@ -363,6 +402,7 @@ def text_part_c05(ck, tier):
             hi = D.int_of(n + [1] * (32 - L))
             addrs += [lo, hi, (lo - 1) % 2**32, (hi + 1) % 2**32] + [lo | r.getrandbits(32 - L) if L < 32 else lo for _ in range(6)]
         addrs += [r.getrandbits(32) for _ in range(40)] + [0x0A020001, 0xAC140102, 0x0A010001, 0x0AC80001, 0x0AC90001]
+        addrs += [0x0B000000 | r.getrandbits(24) for _ in range(60 if cfg.raw_nets else 0)]      # many outside neighbours of 11.11/16
         ls = []
         for i, a in enumerate(addrs):
             q = dotted(D.bits_of(a, 32), zeros=(i % 7 == 6))
@@ -399,6 +439,19 @@ def text_part_c05(ck, tier):
             pair_lines(ev, texts, "in.cfg", src, open(os.path.join(base, "out.cfg")).read())
         traces.append(ev)
         meta.append({"cfg": cfg.describe(), "via": "main", "lines": [t if t else ("", "") for t in texts], "head": 0})
+        # the other direction with the same options: preserved addresses are left alone by --undo as well
+        uargs = ["-u"] + args[1:3] + ["-i", os.path.join(base, "in.cfg"), "-o", os.path.join(base, "undone.cfg")] + args[7:]
+        rc, err = run_main(uargs)
+        ucfg = Cfg(cfg.salt, ps4=8, ps6=8, pins=prefixes, nets=nets, undo=True)
+        ev = [ucfg.event(clauses)]
+        texts = [None]
+        if rc != 0 or not os.path.isfile(os.path.join(base, "undone.cfg")):
+            ev.append({"ev": "exc", "what": "main -u rc=%s %s" % (rc, err[-300:])})
+            texts.append(("main", "EXC"))
+        else:
+            pair_lines(ev, texts, "in.cfg", src, open(os.path.join(base, "undone.cfg")).read())
+        traces.append(ev)
+        meta.append({"cfg": ucfg.describe(), "via": "main -u", "lines": [t if t else ("", "") for t in texts], "head": 0})
     for ln in lines:
         ck.count(("c05text", ln))
     judge(ck, "C05", traces, meta, "text")
@@ -504,6 +557,7 @@ def file_level(ck, pid, tier):
             cfg.pins = ["10.0.0.0/8", "100.64.0.0/10"]
             hb += ["--preserve-prefixes", ",".join(cfg.pins)]
         files = sample_files(r)
+        files["r1.cfg"] += "".join(ln + "\n" for ln in config_lines(cfg))
         base = tlc.subdir("files_%s_%d" % (pid, si))
         ind = os.path.join(base, "in")
         write_tree(ind, files)
@@ -621,6 +675,27 @@ def file_level(ck, pid, tier):
             except Exception as e:
                 ev.append({"ev": "exc", "what": "no-salt run: %r" % (e,)})
                 texts.append(("nosalt", "EXC"))
+        if pid == "C02":
+            # undo FIRST on a long-lived pair of objects, then anonymize the result on the same objects, then undo again
+            try:
+                a4, a6 = cfg.make()
+                ucfg = Cfg(salt, ps4=cfg.ps4, ps6=cfg.ps6, pins=cfg.pins, nets=cfg.nets, undo=True)
+                seq_in = [ln for name in sorted(got) for ln in got[name].split("\n") if ln][:10]
+                ev.append({"ev": "mode", "undo": True})
+                texts.append(None)
+                back1 = [rewrite_stagewise(ucfg, a4, a6, ln) for ln in seq_in]
+                for ln, o in zip(seq_in, back1):
+                    ev.append({"ev": "line", "in": cps(ln), "out": cps(o)})
+                    texts.append((ln, o))
+                ev.append({"ev": "mode", "undo": False})
+                texts.append(None)
+                for ln in back1 + seq_in[:4]:
+                    o = rewrite_stagewise(cfg, a4, a6, ln)
+                    ev.append({"ev": "line", "in": cps(ln), "out": cps(o)})
+                    texts.append((ln, o))
+            except Exception as e:
+                ev.append({"ev": "exc", "what": "undo first, then anonymize on the same objects: %r" % (e,)})
+                texts.append(("interleaved", "EXC"))
         if pid == "C03":
             # one long-lived pair of anonymizer objects asked to anonymize and to undo the SAME text, interleaved
             try:
@@ -701,6 +776,27 @@ def hostbits_part_c04(ck, tier):
         t, m = line_traces(cfg, lines, via="io", clauses=["Structure", "Spelling", "Suffix", "Consistent", "Pins"])
         traces += t
         meta += m
+        if ps4 and ps6:
+            try:
+                a4, a6 = cfg.make()
+                ucfg = Cfg(cfg.salt, ps4=ps4, ps6=ps6, undo=True)
+                ev = [cfg.event(["Structure", "Spelling", "Suffix", "Consistent", "Pins"]), {"ev": "mode", "undo": True}]
+                tx = [("", "")]
+                for ln in lines[:6]:
+                    o = rewrite_stagewise(ucfg, a4, a6, ln)
+                    ev.append({"ev": "line", "in": cps(ln), "out": cps(o)})
+                    tx.append((ln, o))
+                ev.append({"ev": "mode", "undo": False})
+                tx.append(("", ""))
+                for ln in lines[:12]:
+                    o = rewrite_stagewise(cfg, a4, a6, ln)
+                    ev.append({"ev": "line", "in": cps(ln), "out": cps(o)})
+                    tx.append((ln, o))
+                traces.append(ev)
+                meta.append({"cfg": cfg.describe(), "via": "stage, undo first then anonymize on one pair of objects", "lines": tx, "head": 1})
+            except Exception as e:
+                traces.append([cfg.event(["Structure"]), {"ev": "exc", "what": "undo first: %r" % (e,)}])
+                meta.append({"cfg": cfg.describe(), "via": "stage", "lines": [("undo-first", "EXC")], "head": 1})
         ck.count(("c04hostbits", ps4, ps6))
     judge(ck, "C04", traces, meta, "hostbits-via-FileAnonymizer")
     # the function-level entry point with preserved networks and NO explicit prefix list: the documented default
@@ -710,15 +806,22 @@ def hostbits_part_c04(ck, tier):
         base = tlc.subdir("c04af_%d" % vi)
         cfg = Cfg("af-%d" % vi, ps4=None, ps6=None, pins=None, nets=nets)
         rr = rng("C04", "af", vi)
-        addrs = [0x0A010203, 0xAC1D3ADE, 0xC0A80101, 0x7F000001, 0x80000001, 0xC0000001, 0xE0000001, 0x08080808, 0x08080909] + [rr.getrandbits(32) for _ in range(40)]
+        addrs = [0x0A010203, 0xAC1D3ADE, 0xC0A80101, 0x7F000001, 0x80000001, 0xC0000001, 0xE0000001, 0x08080808, 0x08080909, 0x08080900, 0x080807FF,
+                 0x0B0B0B0A, 0x0B0B0B0C, 0x64800000, 0x643FFFFF] + [rr.getrandbits(32) for _ in range(40)]
         src = "".join("host %s\n" % D.ipaddress.IPv4Address(a) for a in addrs)
+        src += "".join("peer %s\n" % D.ipaddress.IPv6Address(rr.getrandbits(128)) for _ in range(6)) + "peer 2001:db8::1 2001:db8::2\n"
         os.makedirs(base, exist_ok=True)
         with open(os.path.join(base, "in.cfg"), "w") as fh:
             fh.write(src)
+        hb4 = [None, 4][vi]
+        if hb4 is not None:
+            cfg.ps4 = hb4                       # host bits given for IPv4 only: IPv6 keeps its own default (none)
         ev = [cfg.event(["Structure", "Spelling", "Kept", "Pins", "Suffix", "Consistent", "Nets"])]
-        texts = [None]
+        ev += token_api_events(cfg, {"in.cfg": src})
+        texts = [None] * len(ev)
         try:
-            AF.anonymize_files(os.path.join(base, "in.cfg"), os.path.join(base, "out.cfg"), False, True, salt=cfg.salt, preserve_networks=list(nets))
+            kw = {} if hb4 is None else {"preserve_suffix_v4": hb4}
+            AF.anonymize_files(os.path.join(base, "in.cfg"), os.path.join(base, "out.cfg"), False, True, salt=cfg.salt, preserve_networks=list(nets), **kw)
             pair_lines(ev, texts, "in.cfg", src, open(os.path.join(base, "out.cfg")).read())
         except Exception as e:
             ev.append({"ev": "exc", "what": "anonymize_files: %r" % (e,)})
@@ -797,12 +900,13 @@ def cli_part_c01(ck, tier):
             lines.append("p %s q %s" % (hexform, dotted if ok else hexform))
             for k in (10, 64, 100, 110, 120, 126):
                 lines.append("p %s q %s" % (hexform, D.ipaddress.IPv6Address(b6 ^ (1 << (127 - k)))))
+        lines += config_lines(cfg)
         src = "\n".join(lines) + "\n"
         with open(os.path.join(base, "in.cfg"), "w") as fh:
             fh.write(src)
         rc, err = run_main(["-a", "-s", cfg.salt, "-i", os.path.join(base, "in.cfg"), "-o", os.path.join(base, "out.cfg")] + opts)
-        ev = [cfg.event(["Structure", "Spelling", "Consistent"])]
-        texts = [None]
+        ev = [cfg.event(["Structure", "Spelling", "Consistent"])] + (token_api_events(cfg, {"in.cfg": src}) if sx == "" else [])
+        texts = [None] * len(ev)
         if rc != 0 or not os.path.isfile(os.path.join(base, "out.cfg")):
             ev.append({"ev": "exc", "what": "main rc=%s %s" % (rc, err[-300:])})
             texts.append(("main", "EXC"))
